@@ -5,6 +5,7 @@ from common import hexs
 PROP = "C04"
 HARNESS = "tok"
 COMPONENT = "tok"
+TIE = ["TranslatedTok"]      # Lemmas/TranslatedTok.lean: Model/Tokener.lean validateUtf8 = json_tokener_validate_utf8 as translated by tools/extract/c2lean.py
 VARIANT = "asan"
 RULE = ("byte strings (random over a JSON-heavy alphabet, grammar output, mutated grammar output with NUL / invalid UTF-8 / "
         "extension snippets) x flag sets x depth limits {1,2,3,32} x chunkings (one shot, two, random, byte-wise, len=-1), and "
